@@ -1,0 +1,12 @@
+//go:build verif
+// +build verif
+
+package pbft
+
+import (
+	sm "github.com/dappledger/AnnChain/gemmill/state"
+)
+
+// VerifBareState returns a ConsensusState that knows nothing but the state ValidateBlock reads
+// (build tag verif only): block validation against any state, without a running node.
+func VerifBareState(s *sm.State) *ConsensusState { return &ConsensusState{state: s} }
